@@ -275,8 +275,12 @@ def _run(prop, prop_id, tier, seed, args, workdir, env, watchdog, reasons, t0) -
         "verdict": "violated" if new_violations else ("inconclusive" if reasons else "held-on-observed"),
     }
     if not args.replay:
-        os.makedirs(os.path.join(ROOT, "evidence"), exist_ok=True)
-        with open(os.path.join(ROOT, "evidence", f"{prop_id}.json"), "w", encoding="utf-8") as f:
+        # evidence/ describes /repo; a run against another tree (VERIF_REPO: seeded changes, scratch worktrees) keeps its
+        # evidence apart so that it never passes for a statement about /repo
+        edir = os.environ.get("VERIF_EVIDENCE_DIR") or (
+            os.path.join(ROOT, "evidence") if core.repo_root() == "/repo" else os.path.join(ROOT, ".work", "evidence-other-tree"))
+        os.makedirs(edir, exist_ok=True)
+        with open(os.path.join(edir, f"{prop_id}.json"), "w", encoding="utf-8") as f:
             json.dump(evidence, f, indent=1, sort_keys=True)
             f.write("\n")
 
